@@ -202,7 +202,7 @@ func readBatchStale(batch *metric.BrokerBatchRows) (rows []Stored, stale int, di
 		}
 		br[i].IsOutOfTimeRange = false
 		if _, err := br[i].WriteTo(&buf); err != nil {
-			vevid.Fatal("WriteTo: %v", err)
+			vevid.OpFailed("WriteTo: %v", err)
 		}
 		br[i].IsOutOfTimeRange = was
 	}
